@@ -615,14 +615,25 @@ def run_fake_case(case):
         return obs
     st = impl[5]
     for i, (nm, pg) in enumerate(recorded):
-        one = quiet(st.get_one_subject, nm)
+        try:
+            one = quiet(st.get_one_subject, nm)
+        except Exception as e:  # noqa
+            obs["violations"].append((f"the loader cannot return the row of subject {nm!r} it was given: {type(e).__name__}: {str(e)[:120]}",
+                                      {"subject": nm}))
+            continue
         for g in groups:
             for k in hk:
                 want = pg[g].get(k)
                 if isinstance(want, int) and abs(want) > 2 ** 53:
                     continue
-                got = st.get(g, k)[i]
-                if not same_value(got, want) or not same_value(one[g][k], want):
+                try:
+                    got = st.get(g, k)[i]
+                    got_one = one[g][k]
+                except Exception as e:  # noqa
+                    obs["violations"].append((f"the loader cannot return the value recorded under ({nm!r}, {g!r}, {k!r}): {type(e).__name__}: {str(e)[:120]}",
+                                              {"subject": nm, "group": g, "metric": k}))
+                    return obs
+                if not same_value(got, want) or not same_value(got_one, want):
                     obs["violations"].append((f"value {want!r} written under ({nm},{g},{k}) is read back as {got!r}",
                                               {"subject": nm, "group": g, "metric": k, "loaded": repr(got), "reported": repr(want)}))
     return obs
